@@ -598,7 +598,7 @@ class features:
 
 
 def r24_explicit_else(text, fired):
-    """R24 (opt-in per function, `fn.rules = ('R24',)`):  `if C { B }` without an `else`  ->  `if C { B } else { }`  (same meaning:
+    """R24 (applied to every extracted function since its discovery; `fn.rules = ('R24',)` is a no-op kept for the unit that introduced it):  `if C { B }` without an `else`  ->  `if C { B } else { }`  (same meaning:
     an else-less `if` has type () and an empty else branch).  Why: Verus 0.2026.09.13 mis-resolves a value holding a `&mut`
     (e.g. a BTreeMap entry) that is moved in the then-branch of an else-less `if <bool>` which falls through: the join point then
     assumes the reference unchanged AND changed, i.e. `false` (reproduced in isolation; an explicit else is handled correctly).
@@ -650,6 +650,7 @@ def rewrite_body(text, fired):
     text = r3_tuple_closure_params(text, fired)
     text = r5_asserts(text, fired)
     text = r7_format(text, fired)
+    text = r24_explicit_else(text, fired)      # applied to every function (defence against a Verus unsoundness, see the rule's docstring)
     return text
 
 
